@@ -98,6 +98,7 @@ def _open_batch(job):
     out = []
     kw = {"password": password} if password else {}
     for img in images:
+        names = None
         try:
             fac = py7zr.io.BytesIOFactory(1 << 22)
             with py7zr.SevenZipFile(io.BytesIO(img), "r", **kw) as z:
@@ -109,7 +110,9 @@ def _open_batch(job):
                 got[n] = p.read()
             out.append(("ok", names, got))
         except Exception as e:  # noqa
-            out.append(("exc", type(e).__name__))
+            # opened and listed, but the members cannot be read: the image was ACCEPTED as an archive (a listing tool,
+            # an append session, a file manager all go on from here) while its contents are not there
+            out.append(("exc", type(e).__name__) if not names else ("listed", names, type(e).__name__))
     return out
 
 
@@ -184,12 +187,25 @@ def run(ctx):
                                 ("lzma1", [(nm[0], arclib.gen_content(rng, 60))], ch["LZMA"])):
                 ajobs.append((final, m2, f2, pw, header, "a"))
                 ameta.append(("append:%s/%s" % (lab, tag), final, m0, m2, pw))
+    # create sessions (mode 'w') on a file OBJECT that still holds an earlier, longer archive: py7zr does not truncate
+    # what it is handed, so until the placeholder is written the old signature header is still in the file, and after
+    # it everything beyond the new bytes is old data
+    olds = [(label, m0, val[1], pw) for (label, m0, _, pw), (st, val) in zip(meta, rec) if st == "ok" and m0 and pw is None and label.count("/") == 0]
+    olds.sort(key=lambda x: -len(x[2]))
+    for label, m0, old_final, pw in olds[:2]:
+        for lab2, hdr2 in (("Copy", "raw"), ("LZMA2", "encoded")):
+            m2 = [("n", b"new")]
+            ajobs.append((old_final, m2, ch[lab2], None, hdr2, "w"))
+            ameta.append(("create-over-old:%s/%s" % (lab2, label.split(":")[1]), old_final, m0, None, None))
     arec = sandbox.pmap(_record, ajobs, timeout=120)
     for (label, base, m0, m1, pw), (st, val) in zip(ameta, arec):
         if st != "ok":
             ctx.fail("C14:session_failed", "recording an append session failed: %s" % str(val)[:200], {"session": label})
             continue
         ops, final = val
+        if label.startswith("create-over-old"):
+            sessions.append((label, base, ops, final, m0, [("n", b"new")], pw))
+            continue
         sessions.append((label, base, ops, final, m0, (m0 + m1) if m0 is not None else None, pw))
 
     crash_lines, crash_impl = [], []
@@ -243,6 +259,9 @@ def run(ctx):
                 ctx.count("py7zr/" + label.split(":")[0], "accepted-correct" if okk else "ACCEPTED-WRONG")
                 if not okk:
                     ctx.fail("C14:accepted_wrong", "a crash image opens successfully with wrong contents (%s): names %r" % (what, r[1][:5]), inp)
+            elif r[0] == "listed":
+                ctx.count("py7zr/" + label.split(":")[0], "LISTED-UNREADABLE")
+                ctx.fail("C14:accepted_unreadable", "a crash image opens and lists %d members (%s) whose data cannot be read (%s)" % (len(r[1]), what, r[2]), inp)
             elif r[0].startswith("sandbox"):
                 ctx.fail("C14:open_" + r[0], "opening a crash image did not complete", inp)
             else:
